@@ -295,6 +295,9 @@ func genAckFate(rt *rapid.T, c Cfg, label string) Fate {
 func genPlanC03B(rt *rapid.T) *Plan {
 	c := genCfg(rt, true)
 	p := &Plan{Cfg: c, DefConn: okFate(1337), DefHb: okFate(1337), DefAck: okFate(137), DefDisc: okFate(1337)}
+	if rapid.IntRange(0, 2).Draw(rt, "gateway-reuses-channel") == 0 {
+		p.DefConn.Ch = -1
+	}
 	var n int
 	switch rapid.IntRange(0, 19).Draw(rt, "size") {
 	case 0:
